@@ -1,5 +1,6 @@
 """C07 — errors point at the first offending character."""
 from .. import parsercheck
+from . import C01
 
 LEVEL = "model_checking"
 
@@ -8,10 +9,12 @@ def run(ctx, res):
     res.rules_run += ["C07.unexp (Unexpected(p, c): p = offset of the first character R has no transition on, c = that character, None exactly at end of input)",
                       "C07.utf8 (a stream error is reported at the offset of the failed pull, before anything else is consumed)",
                       "C07.surr (surrogate errors carry the held / offending units and a span inside the escapes, start <= end <= current offset)",
-                      "C07.bound (every offset in an error is a position read from the parser, no arithmetic)"]
+                      "C07.bound (every offset in an error is a position read from the parser, no arithmetic)",
+                      "C07.entry (every public entry point returns the core's error unchanged - Stream(p, _) becoming InvalidUtf8(p) on the byte-slice paths - and has no verdict of its own: all of its returning paths pass through the one core call)"]
     prod = parsercheck.apply(ctx, res, ["C07.", "E2."], strict_only=True)
     strict = prod["runs"][0]
     res.count("rejecting_transitions", strict["rejecting"])
     res.count("distinct_error_sites", strict["stats"].get("error_sites", 0))
     res.floor("C07.unexp", "rejecting_transitions", 1000)
-    res.notes.append("io_into_utf8 (Stream(p,_) -> InvalidUtf8(p), other variants unchanged) is checked by C01.entry's sibling rule in C07 thorough tier")
+    C01.entry_rule(ctx, res, rule="C07.entry", tail_only=True)
+    res.notes.append("io_into_utf8 (Stream(p,_) -> InvalidUtf8(p), other variants unchanged) is interpreted as part of C07.entry (tail of parse_slice / parse_slice_with)")
